@@ -88,6 +88,7 @@ type Sim struct {
 
 	Steps    int
 	MaxSteps int
+	Stop     bool // set by the harness to end the run (first violation)
 
 	now     time.Time
 	Start   time.Time
@@ -344,6 +345,9 @@ func (s *Sim) RunTask(t *Task) {
 // It reports whether t finished.
 func (s *Sim) RunSolo(t *Task, max int) bool {
 	for i := 0; i < max; i++ {
+		if s.Stop {
+			return true
+		}
 		if t.Done {
 			return true
 		}
@@ -359,7 +363,7 @@ func (s *Sim) RunSolo(t *Task, max int) bool {
 // whether the cap was hit.
 func (s *Sim) Run() (capped bool) {
 	for s.Steps < s.MaxSteps {
-		if !s.Step() {
+		if s.Stop || !s.Step() {
 			return false
 		}
 	}
